@@ -6,7 +6,7 @@ HARNESS = "rx_driver"
 LEAN_MODULES = ["ViaProofs.C16", "ViaProofs.Trans.RT"]
 REQUIRED_THEOREMS = ["Via.C16", "Via.C16_no_throw", "Via.RT_handleRequest", "Via.RT_guard", "Via.RT_searchPath", "Via.RT_hasParameters"]
 LEVEL = "proof"
-LEVEL_TEXT = ("PROOF that the router's dispatch equals a 10-line specification matcher for every route table, target and method (refinement), and never throws; correspondence exhaustive over small tables plus random larger ones, duplicate registrations, multi-'?' targets.")
+LEVEL_TEXT = ("PROOF that the router's dispatch equals a 10-line specification matcher for every route table, target and method (refinement), and never throws; the decision chain of handle_request (404 / 405 + Allow / 401 + challenge / handler with the bound parameters), the Route constructor's search_path and has_parameters as translated from the current source (tools/cxx2lean_router.py -> ViaGen/RT) are proved equal to the model (Trans/RT); find_route, get_route_parameters, request_uri and add_method are hand-modelled; correspondence exhaustive over small tables plus random larger ones, duplicate registrations, multi-'?' targets.")
 RULE = ("route tables over segment alphabet {a,b,:x,:y} (patterns of 1..3 segments, distinct parameter names) with GET/POST "
         "handlers, against every target of 1..4 segments over {a,b,c,empty} with optional query/fragment; every "
         "single-route table exhaustively, two-route tables sampled (exhaustive in thorough), plus random larger tables; "
